@@ -486,3 +486,36 @@ def r10_11_wraps(ctx: Ctx) -> RuleResult:
     rr = RuleResult("R10.11", "time-of-day factories and accessors: wrap-around helpers only on quantities proved inside the wrapped type's range", min_instances=8)
     check_wraps(ctx, rr)
     return rr
+
+
+@rule("C10")
+def r10_12_no_wrapping_time_arithmetic_on_date_times(ctx: Ctx) -> RuleResult:
+    """LocalTime.plus_* and _TimePeriodField._add_local_time wrap around midnight and *discard* the number of days crossed - right
+    for a time of day, wrong inside a value that also has a date.  Methods of date-and-time types (anything with both a `date`
+    and a `time_of_day` component) must not reach them: their time arithmetic goes through _add_local_date_time /
+    _add_local_time_with_extra_days, which return the day carry."""
+    rr = RuleResult("R10.12", "date-and-time types never do their arithmetic with the wrapping LocalTime operations (which drop the day carry)", min_instances=3)
+    M = ctx.M
+    for c in sorted(M.all_classes(), key=lambda x: x.qual):
+        if "_compatibility" in c.mod.rel or M.find_method(c, "date") is None or M.find_method(c, "time_of_day") is None:
+            continue
+        rr.inst()
+        bad = None
+        for f in c.all_defs:
+            if isinstance(f.node, ast.Lambda):
+                continue
+            for n in own_nodes(f.node):
+                if not (isinstance(n, ast.Call) and isinstance(n.func, ast.Attribute)):
+                    continue
+                a = n.func.attr
+                if not (re.match(r"plus_(hours|minutes|seconds|milliseconds|microseconds|ticks|nanoseconds)$", a) or a == "_add_local_time"):
+                    continue
+                tg, how = ctx.R.callees(n, f, count=False)
+                if how == "resolved" and any(t.cls is not None and t.cls.name in ("LocalTime", "_TimePeriodField") and (t.cls.name == "LocalTime" or t.name == "_add_local_time") for t in tg):
+                    bad = (f, n)
+        if bad:
+            f, n = bad
+            rr.fail(f.qual, f"`{unparse(n)[:70]}` wraps around midnight and drops the days crossed; the date of the result is not adjusted", ctx.loc(f, n))
+        else:
+            rr.ok({"class": c.qual})
+    return rr
